@@ -20,6 +20,8 @@ BLOCKS = {
     "sec-bg": (sec(BG), "SecBg"),
     "sec-fw-bg": (sec(' full-width="full-width"' + BG), "FullSec"),
     "sec-class": (sec(' css-class="kk"'), "Sec"),
+    # a single column holding a right-aligned text: the section writes its Outlook table through a code path of its own
+    "sec-right": (sec(inner='<mj-column><mj-text align="right">SR</mj-text></mj-column>'), "Sec"),
     "sec-2col": (sec(inner=(COL % "A") + (COL % "B")), "Sec"),
     "sec-group": (sec(inner="<mj-group>" + (COL % "A") + (COL % "B") + "</mj-group>"), "Sec"),
     "sec-empty": (sec(inner=""), "Sec"),
@@ -38,7 +40,7 @@ BLOCKS = {
     "raw": ("<mj-raw><div class=\"rawtop\">R</div></mj-raw>", "Other"),
 }
 QUICK14 = ["sec", "sec-fw", "sec-bg", "sec-fw-bg", "sec-class", "sec-2col", "sec-group", "sec-empty", "wrap", "wrap-fw", "wrap-bg-fwchild",
-           "hero", "raw", "sec-raw"]
+           "hero", "raw", "sec-raw", "sec-right"]
 
 
 def doc_of(names):
